@@ -823,6 +823,11 @@ func matchPrograms() []*dsl.Program {
 	mk("one-max-key-u32", dsl.Root("Msg", dsl.Sc("u32", "Kind"), dsl.Mt("Kind", "Body", dsl.K("Alpha", "1"), dsl.K("Beta", "4294967295"), dsl.K("Gamma", "3"))))
 	mk("case-keys", dsl.Root("Msg", dsl.Ds("Kind"), dsl.Mt("Kind", "Body", dsl.K("Alpha", `"ab"`), dsl.K("Beta", `"AB"`), dsl.K("Gamma", `"Ab"`))))
 	mk("decimal-keys-7-10-100", dsl.Root("Msg", dsl.Sc("u16", "Kind"), dsl.Mt("Kind", "Body", dsl.K("Alpha", "7"), dsl.K("Beta", "10"), dsl.K("Gamma", "100"))))
+	// the FIRST alternative carries the extreme key (whatever takes "the first alternative" as its sample meets it)
+	mk("extreme-first-key-u32", dsl.Root("Msg", dsl.Sc("u32", "Kind"), dsl.Mt("Kind", "Body", dsl.K("Alpha", "4294967295"), dsl.K("Beta", "2147483648"), dsl.K("Gamma", "1"))))
+	mk("extreme-first-key-u64", dsl.Root("Msg", dsl.Sc("u64", "Kind"), dsl.Mt("Kind", "Body", dsl.K("Alpha", "18446744073709551615"), dsl.K("Beta", "1"))))
+	mk("extreme-first-key-u16", dsl.Root("Msg", dsl.Sc("u16", "Kind"), dsl.Mt("Kind", "Body", dsl.K("Alpha", "65535"), dsl.K("Beta", "32768"), dsl.K("Gamma", "1"))))
+	mk("extreme-first-key-u8", dsl.Root("Msg", dsl.Sc("u8", "Kind"), dsl.Mt("Kind", "Body", dsl.K("Alpha", "255"), dsl.K("Beta", "128"), dsl.K("Gamma", "1"))))
 	// keys written with leading zeros are decimal numbers like any other (DIGITS)
 	mk("leading-zero-keys", dsl.Root("Msg", dsl.Sc("u16", "Kind"), dsl.Mt("Kind", "Body", dsl.K("Alpha", "001"), dsl.K("Beta", "010"), dsl.K("Gamma", "8", "0100"))))
 	// the first alternative is the empty packet (whatever picks "the first alternative" as its sample meets it)
